@@ -14,3 +14,6 @@ func (verifNopLogger) Info(msg string, ctx ...interface{})  {}
 func (verifNopLogger) Warn(msg string, ctx ...interface{})  {}
 func (verifNopLogger) Error(msg string, ctx ...interface{}) {}
 func (verifNopLogger) Crit(msg string, ctx ...interface{})  {}
+
+// stub for lib/log.New (package-level constructor used by a few handlers)
+func verifStubLogNew(ctx ...interface{}) log.Logger { return verifNopLogger{} }
